@@ -43,6 +43,7 @@ type c17Case struct {
 	conflict   bool     // two sources produce the same file
 	writePhase bool     // failure may only happen while writing (confinement only)
 	strace     bool
+	lib        bool // gen.Generate called directly (vgenlib), without the command line's ancestry check
 }
 
 func snapshot(root string) map[string]string {
@@ -142,6 +143,30 @@ func c17Cases(r *core.Run) []*c17Case {
 		c.writePhase = s.writePhase
 		c.mustOK = !c.mustFail && !s.writePhase && !s.rejected
 		add(c)
+	}
+	// --- the conflicting path is one of several files of the response, with
+	// files sorting before and after it (from one plugin, and spread over two)
+	for _, alias := range []string{"svc/svc.go", "./svc/svc.go", "/svc/svc.go"} {
+		for _, others := range [][]string{{"zzz/last.go"}, {"aaa/first.go"}, {"aaa/first.go", "zzz/last.go"}, {"svc/svc2.go", "svc/a.go"}} {
+			c := simple()
+			c.desc = fmt.Sprintf("plugin files %q plus %q", alias, others)
+			files := map[string]string{alias: "plugin content"}
+			for _, o := range others {
+				files[o] = "other " + o
+			}
+			c.plugins = []c17Plugin{okPlugin("plugA", files)}
+			c.mustFail, c.conflict = true, true
+			add(c)
+			c = simple()
+			c.desc = fmt.Sprintf("plugA %q, plugB %q", alias, others)
+			rest := map[string]string{}
+			for _, o := range others {
+				rest[o] = "other " + o
+			}
+			c.plugins = []c17Plugin{okPlugin("plugA", map[string]string{alias: "plugin content"}), okPlugin("plugB", rest)}
+			c.mustFail, c.conflict = true, true
+			add(c)
+		}
 	}
 	// --- two plugins producing the same file (also through aliases)
 	for _, pair := range [][2]string{{"p/x.go", "p/x.go"}, {"p/x.go", "./p/x.go"}, {"p/x.go", "p//x.go"}, {"p/x.go", "/p/x.go"}, {"p/x.go", "p/./x.go"}, {"p/x.go", "p/y.go"}} {
@@ -252,6 +277,23 @@ func c17Cases(r *core.Run) []*c17Case {
 			thrift: map[string]string{"thrift/a/top.thrift": "struct T {}\n"}}
 		add(c)
 	}
+	// --- the library entry point gen.Generate with a thrift root that does not
+	// contain every included file (the command line refuses these layouts
+	// beforehand; a library caller is not protected by that check). The outcome
+	// is free; confinement and all-or-nothing apply.
+	for _, l := range []struct{ root, input, inc, incPath string }{
+		{"thrift/a", "thrift/a/top.thrift", "../b/leaf.thrift", "thrift/b/leaf.thrift"},
+		{"thrift/a/deep", "thrift/a/deep/top.thrift", "../../b/leaf.thrift", "thrift/b/leaf.thrift"},
+		{"thrift/a/deep", "thrift/a/deep/top.thrift", "../../../other/inc/leaf.thrift", "other/inc/leaf.thrift"},
+		{"thrift/a/deep/er", "thrift/a/deep/er/top.thrift", "../../../../leaf.thrift", "leaf.thrift"},
+		{"thrift/a", "thrift/a/top.thrift", "./sub/leaf.thrift", "thrift/a/sub/leaf.thrift"},
+	} {
+		for _, extra := range [][]string{nil, {"no-recurse"}} {
+			c := &c17Case{desc: fmt.Sprintf("library gen.Generate: root %s, include %s %v", l.root, l.inc, extra), input: l.input, root: l.root, lib: true, args: extra,
+				thrift: map[string]string{l.input: "include \"" + l.inc + "\"\nstruct T {\n  1: optional leaf.L l\n}\n", l.incPath: "struct L {}\n"}}
+			add(c)
+		}
+	}
 	for i, c := range cases {
 		c.strace = !r.Quick() || i%4 == 0
 	}
@@ -261,7 +303,7 @@ func c17Cases(r *core.Run) []*c17Case {
 	for k := 0; k < extra; k++ {
 		c := simple()
 		np := rr.Range(1, 3)
-		paths := []string{"p/x.go", "./p/x.go", "q/y.go", "/q/y.go", "svc/svc.go", "./svc/svc.go", "../up.txt", "ok/z.txt", "ok//z.txt", "deep/a/b/c.txt", "x/../y.txt", "x/../../up2.txt", "deep/a/../../../up3.txt"}
+		paths := []string{"zz/last.go", "svc/zz.go", "p/x.go", "./p/x.go", "q/y.go", "/q/y.go", "svc/svc.go", "./svc/svc.go", "../up.txt", "ok/z.txt", "ok//z.txt", "deep/a/b/c.txt", "x/../y.txt", "x/../../up2.txt", "deep/a/../../../up3.txt"}
 		used := map[string]bool{"/svc/svc.go": true}
 		c.desc = "random:"
 		dotdot := false
@@ -314,6 +356,7 @@ func c17(r *core.Run) {
 	ver := apiVersion()
 	host := r.GoBuildRepo("thriftrw", "go.uber.org/thriftrw")
 	vplugin := r.GoBuild("vplugin", "./cmd/vplugin")
+	vgenlib := r.GoBuild("vgenlib", "./cmd/vgenlib")
 	cases := c17Cases(r)
 	if r.Replay {
 		var keep []*c17Case
@@ -331,7 +374,7 @@ func c17(r *core.Run) {
 		go func() {
 			defer wg.Done()
 			for c := range work {
-				runC17(r, c, ver, host, vplugin)
+				runC17(r, c, ver, host, vplugin, vgenlib)
 			}
 		}()
 	}
@@ -355,7 +398,7 @@ func c17(r *core.Run) {
 
 var openWriteRe = regexp.MustCompile(`(?:openat\([^,]+, |open\(|mkdirat\([^,]+, |mkdir\(|unlinkat\([^,]+, |unlink\(|rename\(|renameat2?\([^,]+, )"([^"]+)"([^\n]*)`)
 
-func runC17(r *core.Run, c *c17Case, ver int32, host, vplugin string) {
+func runC17(r *core.Run, c *c17Case, ver int32, host, vplugin, vgenlib string) {
 	dir := filepath.Join(r.Scratch, fmt.Sprintf("c17-%d", c.id))
 	parent := filepath.Join(dir, "parent")
 	bin := filepath.Join(dir, "bin")
@@ -392,6 +435,11 @@ func runC17(r *core.Run, c *c17Case, ver int32, host, vplugin string) {
 		args = append(args, "--plugin", fmt.Sprintf("%s %s %s", p.name, sp, filepath.Join(dir, "ctl", p.name+".events")))
 	}
 	args = append(args, filepath.Join(parent, c.input))
+	if c.lib {
+		host = vgenlib
+		args = append([]string{out, filepath.Join(parent, c.root), filepath.Join(parent, c.input)}, c.args...)
+		r.Add("library_runs", 1)
+	}
 	before := snapshot(parent)
 	// files an absolute plugin path would hit if it escaped
 	var cmd *exec.Cmd
